@@ -93,7 +93,12 @@ def r3(rr, repo):
     rr.paths += len(paths)
     n = m = 0
     for p in paths:
-        seeks = [e for e in p.events if e.kind == 'call' and e.term == 'self.seek']
+        allseeks = [e for e in p.events if e.kind == 'call' and e.term == 'self.seek']
+        # the restore proper happens under `head is not None`; a seek before that test is the default position every log starts from (judged by C13.R10)
+        seeks = [e for e in allseeks if any(pol and U(t).replace('self.', '') == 'head is not None' for t, pol in q.guards_of(e.node, stop=fn))]
+        for e in allseeks:
+            if e not in seeks:
+                rr.ob("the default position taken before the head file is looked at is the end of the log", e.args[0].replace('"', "'") == "('end', 0)", mod, e.node, witness=e.args[0], key='default-end')
         for e, path, mode in open_events(p):
             rr.ob('__init__ opens only the head file, read-only', path in ('head', 'self.head') and not WRITE_MODES.search(mode), mod, e.node, witness=f'open({path}, {mode!r})', key='init-open')
         for s in seeks:
@@ -266,3 +271,11 @@ def r8(rr, repo):
 def r9(rr, repo):
     from .c13 import r1 as c13r1
     c13r1(rr, repo)
+
+
+@rule('C14.R10', "no record that is on disk is skipped by the reader itself: a file is left for a newer one only after it was read once more AFTER the rescan that showed the newer file (the writer may have appended its "
+                 "last record between the reader's empty read and that rescan), and a reader positioned at the end sits IN the newest file (shares C13.R4 and C13.R10)")
+def r10(rr, repo):
+    from .c13 import r4 as c13r4, r10 as c13r10
+    c13r4(rr, repo)
+    c13r10(rr, repo)
